@@ -665,7 +665,7 @@ def run(ctx):
     for f in ctx.build.glob("cases_*.v*"):
         f.unlink()
     files = []
-    chunk = max(20, len(terms) // 32 + 1)
+    chunk = min(80, max(20, len(terms) // 32 + 1))
     for i in range(0, len(terms), chunk):
         part = terms[i:i + chunk]
         txt = HEADER + "Definition cases : list bool := [\n" + ";\n".join(t for _, _, t in part) + "].\nEval vm_compute in failing cases.\n"
@@ -673,6 +673,9 @@ def run(ctx):
         f.write_text(txt)
         files.append((f, part))
     res = ctx.coqc_many([f for f, _ in files], jobs=16, timeout=900)
+    for f, _ in files:          # a coqc killed under memory pressure (no output) is retried alone
+        if res[f][0] != 0 and not res[f][1].strip():
+            res[f] = ctx.coqc(f, timeout=900)
     mism = []
     for f, part in files:
         rc, out = res[f]
